@@ -1342,6 +1342,12 @@ impl TensorStore {
             }
         }
 
+        // Table storage is not key-addressed, so the copy above cannot carry it: move the
+        // relational slab of the decoded image into the live router.
+        self.router
+            .relations
+            .replace_with(new_router.relations.snapshot());
+
         Ok(())
     }
 
